@@ -26,19 +26,25 @@ SPEC = dict(
              'tot_cells_size, root_list, index, cells_data, including the CRC comparison and the trailing-bytes check. A change of any line of that '
              'function therefore breaks a proof obligation (the check then evaluates both functions in Lean on boundary bags and their corruptions and '
              'runs the conformance / rejection oracle on the differing inputs to produce a concrete replay) instead of having to be hit by a sample. '
-             'The translator itself is validated on every change: Lean evaluation of the regenerated function = CPython on 349 structured byte strings. '
-             'TIE TO THE SOURCE, rest (deserialize_cell, the three loops of deserialize, Boc.__init__): hand model + differential correspondence on '
+             'TIE TO THE SOURCE, first part of the cell record reader: c05_src_cell_layout - the statements of Boc.deserialize_cell before the data bits are '
+             'read (d1/d2 decoding, absent marker, popcount(level mask)+1 stored hashes and depths, the length check) are regenerated the same way and '
+             'proved equal, for all byte lists and index widths, to the first part of the hand model\'s deserializeCell, which is proved to be that part '
+             'followed by the rest. '
+             'The translator itself is validated on every change: Lean evaluation of the regenerated functions = CPython on ~350 structured header byte '
+             'strings and ~275 cell records. '
+             'TIE TO THE SOURCE, rest (second part of deserialize_cell: data bits, completion tag, exotic type byte, reference indices; the three loops of '
+             'deserialize; Boc.__init__): hand model + differential correspondence on '
              'conforming encodings from two independent encoders '
              '(Lean spec encoder through the driver, Python transcription in the harness), on every truncation/extension, all single-bit flips, '
              'reference/root/magic corruptions and random byte mutations.',
         level_note='Trusted: Lean kernel (propext, Classical.choice, Quot.sound); for the header parser: the bytes-program translator pybytes.py/pyarith.py '
                    'and its reading of the Python built-ins (TonVerif/PyBytes.lean: slice, range, unpacking; natOfBE = int.from_bytes big), validated '
-                   'differentially against CPython whenever source, translator or output change; for deserialize_cell / deserialize / Boc.__init__: '
+                   'differentially against CPython whenever source, translator or output change; for the second part of deserialize_cell / deserialize / Boc.__init__: '
                    'Model/BocParse.lean as a faithful hand transcription of '
                    'deserialize.py (sampled correspondence only: accept/reject and canonical root DAG listing on every generated input); '
                    'Spec/BocEncode.lean as a faithful reading of boc.tlb + the reference cell record layout; Model/Cell.lean for the constructor; '
                    'CRC theorem uses the translated crc32c (C18 tie). Input-form detection (hex/base64 text) is modelled for canonical texts only.',
-        technique='Lean 4 proof; header parser regenerated from the source on every run and proved equal to the hand model for all inputs; '
+        technique='Lean 4 proof; header parser and first part of the cell reader regenerated from the source on every run and proved equal to the hand model for all inputs; '
                   'rest: hand model + differential correspondence with the library',
     ),
     translators=[('deserialize.py deserialize_boc_header + first part of deserialize_cell (+utils.bytes_to_uint, magics)->Generated/BocHeader.lean', bocheader.regenerate)],
@@ -48,14 +54,14 @@ SPEC = dict(
          'stored hashes, 1-3 roots, extra unreachable cells, random forward order); negative: every truncation point, 1-8 byte extensions, all '
          'single-bit flips of CRC-protected bags, reference rewrites (dangling/backward/self), root index >= cells, magic rewrites; '
          'distinct = distinct byte string; non-trivial = bag with >= 2 cells or non-empty data',
-    trusted_base=['Model/BocParse.lean mirrors deserialize_cell/deserialize/Boc.__init__ by hand (deserialize_boc_header: regenerated + proved equal, c05_src_header)',
+    trusted_base=['Model/BocParse.lean mirrors the second part of deserialize_cell, deserialize and Boc.__init__ by hand (deserialize_boc_header and the first part of deserialize_cell: regenerated + proved equal, c05_src_header / c05_src_cell_layout)',
                   'harness/translate/pybytes.py + pyarith.py (Python bytes-program subset -> Lean) and TonVerif/PyBytes.lean (meaning of slice / range / unpacking)',
                   'Spec/BocEncode.lean transcribes boc.tlb and DataCell::serialize (with_hashes) by hand',
                   'Model/Cell.lean (constructor model, C01/C02) is reused for cls(bits, refs, type)',
                   'SHA-256 is an abstract parameter H in all theorems; CRC-32C is the translated library code (C18)'],
     assumptions=['bitarray frombytes / slicing / ba2int behave as modelled', 'bytes slicing never raises, indexing past the end raises',
                  'None children make the Cell constructor raise for every cell type',
-                 'correspondence is sampled differential testing of model vs library (all functions except deserialize_boc_header)',
+                 'correspondence is sampled differential testing of model vs library (everything except deserialize_boc_header and the first part of deserialize_cell)',
                  'deserialize_boc_header is called with a bytes object; its exceptions are not distinguished (raise = none)'],
 )
 
